@@ -2168,6 +2168,226 @@ fn mode_iter(args: &Args) {
     }
 }
 
+// ---------------------------------------------------------------------------------------------
+// observers: C15 beside other threads
+// ---------------------------------------------------------------------------------------------
+
+/// What one run of the writer program showed: the results of its own operations and, after the
+/// observers have stopped and a final sync(), the physical state (addresses stripped) and the
+/// popularity table.
+#[derive(PartialEq)]
+struct ObsOutcome {
+    results: Vec<String>,
+    snap: Snap,
+    sketch: Vec<u64>,
+    counters: (u64, u64),
+}
+
+fn strip_addrs(mut s: Snap) -> Snap {
+    for e in s.entries.iter_mut() {
+        e.info = 0;
+        e.ao = e.ao.map(|(_, t)| (0, t));
+        e.wo = e.wo.map(|_| 0);
+    }
+    for d in [&mut s.window, &mut s.probation, &mut s.protected, &mut s.write_order] {
+        for n in d.iter_mut() {
+            n.addr = 0;
+            n.info = 0;
+        }
+    }
+    s
+}
+
+/// Runs the writer program on a fresh cache, with `observers` threads that only call
+/// contains_key and iterate (holding a yielded entry reference for a while) until it is done.
+/// Returns the outcome and the number of observations made.
+fn run_observed(cfg: &Config, ops: &[COp], observers: usize, oseed: u64) -> (ObsOutcome, u64, u64) {
+    mini_moka::verif::set_switch_hook(None);
+    let cache = build_sync(cfg);
+    let clock = cache.verif_install_mock_clock();
+    let base = clock.now();
+    let stop = Arc::new(AtomicBool::new(false));
+    let made = Arc::new(AtomicU64::new(0));
+    let held = Arc::new(AtomicU64::new(0));
+    let mut hs = Vec::new();
+    for o in 0..observers {
+        let c = cache.clone();
+        let stop = Arc::clone(&stop);
+        let made = Arc::clone(&made);
+        let held = Arc::clone(&held);
+        let keys = cfg.keys;
+        let mut rng = Rng::new(oseed ^ ((o as u64 + 1) << 32));
+        hs.push(std::thread::spawn(move || {
+            while !stop.load(Ordering::Relaxed) {
+                match rng.below(4) {
+                    0 | 1 => {
+                        let _ = c.contains_key(&TK::probe(rng.below(keys as u64) as u32));
+                    }
+                    2 => {
+                        let n = c.iter().count();
+                        std::hint::black_box(n);
+                    }
+                    _ => {
+                        // keep a yielded reference (and with it the read lock of its shard) for a while
+                        let mut it = c.iter();
+                        for _ in 0..rng.below(4) {
+                            let _ = it.next();
+                        }
+                        if let Some(e) = it.next() {
+                            let spin = rng.below(300);
+                            let t0 = Instant::now();
+                            while (t0.elapsed().as_micros() as u64) < spin {
+                                std::hint::spin_loop();
+                            }
+                            std::hint::black_box(e.value().vid);
+                            held.fetch_add(1, Ordering::Relaxed);
+                        }
+                        drop(it);
+                    }
+                }
+                made.fetch_add(1, Ordering::Relaxed);
+            }
+        }));
+    }
+    let mut results = Vec::with_capacity(ops.len());
+    let mut counter = 0u64;
+    for op in ops {
+        let r = match *op {
+            COp::Insert { k, w } => {
+                counter += 1;
+                cache.insert(TK::new(k), TV::new(counter, w));
+                String::new()
+            }
+            COp::Get { k } => format!("{:?}", cache.get(&TK::probe(k)).map(|v| v.vid)),
+            COp::Contains { k } => format!("{}", cache.contains_key(&TK::probe(k))),
+            COp::Invalidate { k } => {
+                cache.invalidate(&TK::probe(k));
+                String::new()
+            }
+            COp::InvalidateAll => {
+                clock.advance(Duration::from_nanos(1));
+                cache.invalidate_all();
+                String::new()
+            }
+            COp::Sync => {
+                cache.sync();
+                String::new()
+            }
+            COp::Advance { ns } => {
+                clock.advance(Duration::from_nanos(ns as u64));
+                String::new()
+            }
+            COp::Iter | COp::IterInv => {
+                let mut v: Vec<(u32, u64)> = cache.iter().map(|e| (e.key().id, e.value().vid)).collect();
+                v.sort();
+                format!("{:?}", v)
+            }
+        };
+        results.push(r);
+    }
+    stop.store(true, Ordering::SeqCst);
+    for h in hs {
+        let _ = h.join();
+    }
+    cache.sync();
+    let snap = strip_addrs(convert(cache.verif_snapshot(|k| k.id as u64, |v| v.vid), base));
+    let sketch = cache.verif_sketch().table();
+    let counters = (cache.entry_count(), cache.weighted_size());
+    (ObsOutcome { results, snap, sketch, counters }, made.load(Ordering::Relaxed), held.load(Ordering::Relaxed))
+}
+
+fn gen_observed_prog(rng: &mut Rng) -> Prog {
+    let keys = rng.range(4, 12) as u32;
+    let mut cfg = gen_cfg(rng, keys);
+    cfg.cap = Some(*rng.pick(&[1u64, 2, 3, 4, 6]));
+    cfg.hasher = HashMode::Mix(rng.below(1000));
+    let idle = rng.chance(1, 2);
+    let mut ops = Vec::new();
+    if idle {
+        // beyond the periodical-sync window: operations queue up until a flush point or an explicit sync()
+        ops.push(COp::Advance { ns: 501_000_000 });
+    }
+    for _ in 0..rng.range(60, 200) {
+        let k = rng.below(keys as u64) as u32;
+        ops.push(match rng.below(20) {
+            0..=6 => COp::Insert { k, w: if cfg.weigher { *rng.pick(&[0u32, 1, 1, 2, 3]) } else { 1 } },
+            7..=13 => COp::Get { k },
+            14 => COp::Invalidate { k },
+            15 => COp::Contains { k },
+            16 => {
+                if rng.chance(1, 3) {
+                    COp::InvalidateAll
+                } else {
+                    COp::Iter
+                }
+            }
+            17 => COp::Advance { ns: if short_expiry(&cfg) { rng.range(1, 3) as u32 } else { 1 } },
+            _ => COp::Sync,
+        });
+    }
+    ops.push(COp::Sync);
+    Prog { cfg, threads: vec![ops], idle }
+}
+
+/// The first difference between the solo run and an observed run, if any.
+fn observed_difference(prog: &Prog, observers: usize, oseed: u64, stats: &mut mmv::monitor::Stats) -> Option<String> {
+    let ops = &prog.threads[0];
+    let (solo, _, _) = run_observed(&prog.cfg, ops, 0, 0);
+    let (obs, made, held) = run_observed(&prog.cfg, ops, observers, oseed);
+    stats.add("observations_made_beside_the_writer", made);
+    stats.add("entry_references_held_beside_the_writer", held);
+    if solo.results != obs.results {
+        let i = solo.results.iter().zip(obs.results.iter()).position(|(a, b)| a != b).unwrap_or(0);
+        return Some(format!("result of the writer's op #{} `{}` differs: {} alone, {} beside {} observer thread(s)", i, ops[i].text(), solo.results[i], obs.results[i], observers));
+    }
+    if solo.counters != obs.counters {
+        return Some(format!("entry_count / weighted_size after the program: {:?} alone, {:?} beside {} observer thread(s)", solo.counters, obs.counters, observers));
+    }
+    if solo.sketch != obs.sketch {
+        return Some(format!("the popularity table after the program differs beside {} observer thread(s)", observers));
+    }
+    if solo.snap != obs.snap {
+        let keys = |s: &Snap| s.probation.iter().map(|n| n.key).collect::<Vec<_>>();
+        return Some(format!("the physical state after the program differs: LRU order {:?} alone, {:?} beside {} observer thread(s)", keys(&solo.snap), keys(&obs.snap), observers));
+    }
+    None
+}
+
+fn mode_observers(args: &Args) {
+    let prop = args.str("prop", "all");
+    let known = args.list("known");
+    let seed = args.u64("seed", 1);
+    let nprog = args.u64("programs", 100);
+    let out_path = args.str("out", "");
+    let mut report = Report { engine: "conmon-observers".into(), ..Default::default() };
+    let mut master = Rng::new(seed ^ 0x0B5E);
+    let mut sigs = HashSet::new();
+    mmv::types::obj_track_set(false);
+    for pi in 0..nprog {
+        let mut rng = master.fork();
+        let prog = gen_observed_prog(&mut rng);
+        let observers = rng.range(1, 3) as usize;
+        let oseed = rng.next_u64() >> 8;
+        report.evaluations += 1;
+        report.stats.inc("observed_programs");
+        if let Some(why) = observed_difference(&prog, observers, oseed, &mut report.stats) {
+            report.stats.inc("violating_runs");
+            let v = Violation { props: vec!["C15"], sig: "pure:observer-threads-changed-behaviour".into(), detail: why, op_index: 0 };
+            record(&mut report, &v, &prog.text("observers", &format!("{}", observers), oseed), &prop, &known, &mut sigs);
+        }
+        report.distinct.entry("C15".into()).or_default().push(prog.fingerprint());
+        if pi % 29 == 0 && report.samples.len() < 3 {
+            report.samples.push(Json::Str(prog.text("observers", "-", 0).replace('\n', " | ")));
+        }
+    }
+    mmv::types::obj_track_set(true);
+    if out_path.is_empty() {
+        println!("{}", report.to_json().dump());
+    } else {
+        report.write(&out_path);
+    }
+}
+
 fn main() {
     install_panic_hook();
     let args = Args::parse();
@@ -2177,6 +2397,18 @@ fn main() {
         let prop = args.str("prop", "all");
         let known = args.list("known");
         match parse_prog(&text) {
+            Some((prog, mode, strategy, sseed)) if mode == "observers" && !prog.threads.is_empty() => {
+                let mut stats = mmv::monitor::Stats::default();
+                let observers: usize = strategy.parse().unwrap_or(2);
+                for t in 0..100u64 {
+                    if let Some(why) = observed_difference(&prog, observers, sseed + t, &mut stats) {
+                        println!("REPLAY-VIOLATION props=[\"C15\"] sig=pure:observer-threads-changed-behaviour: {}", why);
+                        std::process::exit(1);
+                    }
+                }
+                println!("replayed program (100 runs beside {} observer thread(s)): no difference", observers);
+                std::process::exit(0);
+            }
             Some((prog, mode, strategy, sseed)) if !prog.threads.is_empty() => {
                 let mut stats = mmv::monitor::Stats::default();
                 let tries = if mode == "stress" || mode == "chase" { 200 } else { 1 };
@@ -2210,6 +2442,7 @@ fn main() {
         "burst1" => mode_burst1(&args),
         "burstn" => mode_burstn(&args),
         "iter" => mode_iter(&args),
+        "observers" => mode_observers(&args),
         m => panic!("unknown mode {}", m),
     }
 }
